@@ -6,6 +6,7 @@
 package c16
 
 import (
+	"bytes"
 	"context"
 	"crypto/sha256"
 	"database/sql"
@@ -29,6 +30,7 @@ import (
 	"github.com/lightningnetwork/lnd/record"
 	"github.com/lightningnetwork/lnd/routing/route"
 	"github.com/lightningnetwork/lnd/sqldb"
+	"github.com/lightningnetwork/lnd/tlv"
 	"github.com/lightningnetwork/lnd/verifmc/crashdb"
 )
 
@@ -50,11 +52,41 @@ type payVar struct {
 	base, alt int64
 	payReq    []byte
 	custom    lnwire.CustomRecords
+	// ctimeOff is the creation time (offset from baseTime) of an initiation with the
+	// base amount; one with the alt amount is altTimeShift later. The two hashes are
+	// created 10.5 s apart (h1 off a full second), so that the creation-date filters
+	// of QueryPayments separate them and see a sub-second part.
+	ctimeOff time.Duration
 }
+
+const altTimeShift = 3 * time.Second
 
 var payVars = [nHashes]payVar{
 	{base: payValue, alt: 600, payReq: []byte("lnverif")},
-	{base: 1<<32 + 1000, alt: 1000, payReq: nil, custom: lnwire.CustomRecords{65637: []byte{0xC1, 0x6}}},
+	{base: 1<<32 + 1000, alt: 1000, payReq: nil,
+		custom:   lnwire.CustomRecords{65637: []byte{0xC1, 0x6}, 65639: []byte{0x7}},
+		ctimeOff: 10*time.Second + 500*time.Millisecond},
+}
+
+// ctimeFor is the creation time an InitPayment of hash h with amount val carries (a
+// function of the amount, which the canonical key covers).
+func ctimeFor(h int, val int64) time.Time {
+	t := baseTime.Add(payVars[h].ctimeOff)
+	if val == payVars[h].alt {
+		t = t.Add(altTimeShift)
+	}
+	return t
+}
+
+// creationInfoFor is the creation info of an InitPayment of hash h with amount val.
+func creationInfoFor(h int, val int64) *paymentsdb.PaymentCreationInfo {
+	return &paymentsdb.PaymentCreationInfo{
+		PaymentIdentifier:     hashes[h],
+		Value:                 lnwire.MilliSatoshi(val),
+		CreationTime:          ctimeFor(h, val),
+		PaymentRequest:        payVars[h].payReq,
+		FirstHopCustomRecords: payVars[h].custom,
+	}
 }
 
 // nextValue is the amount the next InitPayment of hash h carries: a function of what
@@ -85,6 +117,7 @@ var (
 	srcVertex route.Vertex
 	srcPub    *btcec.PublicKey
 	midVertex route.Vertex
+	mid2Vertex route.Vertex
 	addrA     = [32]byte{0xA1, 0xA1}
 	addrB     = [32]byte{0xB2, 0xB2}
 	baseTime  = time.Unix(1_700_000_000, 0).UTC()
@@ -116,6 +149,9 @@ func init() {
 	k2 := sha256.Sum256([]byte("verif-c16-intermediate-key"))
 	_, pub2 := btcec.PrivKeyFromBytes(k2[:])
 	midVertex = route.NewVertex(pub2)
+	k3 := sha256.Sum256([]byte("verif-c16-intermediate-key-2"))
+	_, pub3 := btcec.PrivKeyFromBytes(k3[:])
+	mid2Vertex = route.NewVertex(pub3)
 }
 
 // attempt kinds (final-hop records):
@@ -125,6 +161,17 @@ func init() {
 //	b  blinded, total=V                        c  blinded, total=2V           (total mismatch)
 //	z  blinded, total=0 (missing)              x  blinded + MPP record        (forbidden)
 //
+// and three kinds that are n / m / b for the admission rules but exercise the other
+// route shapes and every optional field the stores persist (shape):
+//
+//	S  single shot over a ONE-hop route (direct peer: the first hop is the final hop)
+//	A  AMP shard: MPP(total=V, addr=A) + AMP record (root share, set id, child index),
+//	   per-attempt payment hash different from the payment identifier, hop-level custom
+//	   records on both hops (one with an empty value), metadata, route-level first-hop
+//	   custom records and first-hop amount
+//	B  blinded PATH of three hops: introduction node (blinding point + encrypted data, no
+//	   amount / time lock), blinded intermediate hop, blinded final hop carrying total=V
+//
 // V is the amount of the payment at the time of the registration (mult * V).
 type kindInfo struct {
 	blinded  bool
@@ -132,6 +179,7 @@ type kindInfo struct {
 	mult     int64
 	addr     byte
 	describe string
+	shape    string // "" = two plain hops; "single", "amp", "blindpath"
 }
 
 var kinds = map[string]kindInfo{
@@ -143,6 +191,9 @@ var kinds = map[string]kindInfo{
 	"c": {blinded: true, mult: 2, describe: "blinded(2V)"},
 	"z": {blinded: true, mult: 0, describe: "blinded(0)"},
 	"x": {blinded: true, mpp: true, mult: 1, addr: 'A', describe: "blinded+mpp"},
+	"S": {describe: "no-mpp, one hop", shape: "single"},
+	"A": {mpp: true, mult: 1, addr: 'A', describe: "amp shard with all optional fields", shape: "amp"},
+	"B": {blinded: true, mult: 1, describe: "blinded path of three hops", shape: "blindpath"},
 }
 
 var (
@@ -153,9 +204,10 @@ var (
 // record total). The session key is a function of (hash, id): the SQL schema requires
 // session keys to be unique, lnd draws a fresh random key per attempt.
 //
-// The route has two hops whose fields all differ (amount, channel, time lock, key);
-// only the final hop carries the MPP / blinded records: what the stores account for
-// is the *final* hop's amount and records.
+// The default route has two hops whose fields all differ (amount, channel, time lock,
+// key); only the final hop carries the MPP / blinded records: what the stores account
+// for is the *final* hop's amount and records. The shapes of kinds S, A, B are described
+// at the kinds table. Every route pays 7 msat of fees (TotalAmount = amount + 7).
 func attemptFor(h int, tok uint64, amt int64, kind string, total int64) *paymentsdb.HTLCAttemptInfo {
 	key := fmt.Sprintf("%d:%d:%d:%s:%d", h, tok, amt, kind, total)
 	if v, ok := attemptCache.Load(key); ok {
@@ -192,9 +244,37 @@ func attemptFor(h int, tok uint64, amt int64, kind string, total int64) *payment
 		SourcePubKey:  srcVertex,
 		Hops:          []*route.Hop{first, hop},
 	}
+	hh := hashes[h]
+	switch ki.shape {
+	case "single":
+		hop.ChannelID = uint64(9000 + tok)
+		rt.Hops = []*route.Hop{hop}
+	case "amp":
+		var root, set [32]byte
+		root = sha256.Sum256([]byte(fmt.Sprintf("verif-c16-amp-root-%d-%d", h, tok)))
+		set = hashes[h] // the payment identifier of an AMP payment is its set id
+		hop.AMP = record.NewAMP(root, set, uint32(100+tok))
+		hop.Metadata = []byte{0xEE, byte(tok)}
+		hop.CustomRecords = record.CustomSet{65541: []byte{9, 9, byte(tok)}}
+		first.CustomRecords = record.CustomSet{65536 + tok: []byte{1, 2}, 70001: []byte{}}
+		rt.FirstHopAmount = tlv.NewRecordT[tlv.TlvType0](tlv.NewBigSizeT(lnwire.MilliSatoshi(amt + 11)))
+		rt.FirstHopWireCustomRecords = lnwire.CustomRecords{65550: []byte{7, byte(tok)}, 65551: []byte{8, 8}}
+		// every AMP shard pays to its own hash
+		hh = sha256.Sum256([]byte(fmt.Sprintf("verif-c16-amp-child-%d-%d", h, tok)))
+	case "blindpath":
+		// the blinded part starts at the introduction node: no amount / time lock /
+		// next channel for the blinded hops that are not the final one
+		first.AmtToForward, first.OutgoingTimeLock = 0, 0
+		first.EncryptedData = []byte{0xB1, byte(tok)}
+		first.BlindingPoint = srcPub
+		mid := &route.Hop{PubKeyBytes: mid2Vertex, EncryptedData: []byte{0xB2, byte(tok), 0xB2}}
+		hop.ChannelID = 0
+		hop.BlindingPoint = nil
+		hop.EncryptedData = []byte{0xB3, byte(tok)}
+		rt.Hops = []*route.Hop{first, mid, hop}
+	}
 	sk := sha256.Sum256([]byte(fmt.Sprintf("verif-c16-session-%d-%d", h, tok)))
 	priv, _ := btcec.PrivKeyFromBytes(sk[:])
-	hh := hashes[h]
 	att, err := paymentsdb.NewHtlcAttempt(realID(tok), priv, rt, baseTime.Add(time.Duration(tok)*time.Second), &hh)
 	if err != nil {
 		panic(fmt.Sprintf("harness: cannot build attempt %s: %v", key, err))
@@ -202,6 +282,119 @@ func attemptFor(h int, tok uint64, amt int64, kind string, total int64) *payment
 	info := &att.HTLCAttemptInfo
 	v, _ := attemptCache.LoadOrStore(key, info)
 	return v.(*paymentsdb.HTLCAttemptInfo)
+}
+
+// settleInfoFor / failInfoFor are the resolution details an attempt id token is
+// resolved with: they differ per token in every field the stores persist (the zero
+// failure reason, a wire failure message, non-zero failure source indexes).
+func settleInfoFor(h int, tok uint64) *paymentsdb.HTLCSettleInfo {
+	return &paymentsdb.HTLCSettleInfo{
+		Preimage: preimages[h], SettleTime: baseTime.Add(2*time.Minute + time.Duration(tok)*time.Second),
+	}
+}
+
+func failInfoFor(h int, tok uint64) *paymentsdb.HTLCFailInfo {
+	f := &paymentsdb.HTLCFailInfo{FailTime: baseTime.Add(time.Minute + time.Duration(tok)*time.Second)}
+	switch tok {
+	case 1:
+		f.Reason, f.FailureSourceIndex = paymentsdb.HTLCFailUnknown, 0
+	case 2:
+		f.Reason, f.FailureSourceIndex = paymentsdb.HTLCFailMessage, 2
+		f.Message = lnwire.NewFailIncorrectDetails(lnwire.MilliSatoshi(1234+h), 77)
+	case 3:
+		f.Reason, f.FailureSourceIndex = paymentsdb.HTLCFailUnreadable, 1
+	default:
+		f.Reason, f.FailureSourceIndex = paymentsdb.HTLCFailInternal, 3
+	}
+	return f
+}
+
+// ---------------------------------------------------------------------------
+// digests: canonical renderings of everything the stores persist about a payment's
+// creation, an attempt and its resolution. The same function renders what is handed to
+// the store (the ledger's expectation) and what the store hands back.
+
+func shortHash(s string) string {
+	d := sha256.Sum256([]byte(s))
+	return fmt.Sprintf("%x", d[:5])
+}
+
+func recordsString(m map[uint64][]byte) string {
+	ks := make([]uint64, 0, len(m))
+	for k := range m {
+		ks = append(ks, k)
+	}
+	sort.Slice(ks, func(i, j int) bool { return ks[i] < ks[j] })
+	var b strings.Builder
+	b.WriteByte('{')
+	for _, k := range ks {
+		fmt.Fprintf(&b, "%d=%x;", k, m[k])
+	}
+	b.WriteByte('}')
+	return b.String()
+}
+
+func creationDigest(c *paymentsdb.PaymentCreationInfo) string {
+	if c == nil {
+		return "noinfo"
+	}
+	return fmt.Sprintf("t=%d req=%x rec=%s", c.CreationTime.UnixMicro(), c.PaymentRequest, recordsString(c.FirstHopCustomRecords))
+}
+
+func attemptDigest(a *paymentsdb.HTLCAttemptInfo) string {
+	var b strings.Builder
+	hash := "nil"
+	if a.Hash != nil {
+		hash = fmt.Sprintf("%x", a.Hash[:])
+	}
+	r := &a.Route
+	fmt.Fprintf(&b, "sk=%x at=%d hash=%s ttl=%d tot=%d src=%x fha=%d fhr=%s hops=%d", a.SessionKey().Serialize(), a.AttemptTime.UnixMicro(), hash,
+		r.TotalTimeLock, r.TotalAmount, r.SourcePubKey[:4], r.FirstHopAmount.Val.Int(), recordsString(r.FirstHopWireCustomRecords), len(r.Hops))
+	for i, h := range r.Hops {
+		fmt.Fprintf(&b, " [%d pk=%x ch=%d tl=%d amt=%d leg=%v", i, h.PubKeyBytes[:4], h.ChannelID, h.OutgoingTimeLock, h.AmtToForward, h.LegacyPayload)
+		if h.MPP != nil {
+			ad := h.MPP.PaymentAddr()
+			fmt.Fprintf(&b, " mpp=%d/%x", h.MPP.TotalMsat(), ad[:])
+		}
+		if h.AMP != nil {
+			rs, si := h.AMP.RootShare(), h.AMP.SetID()
+			fmt.Fprintf(&b, " amp=%x/%x/%d", rs[:], si[:], h.AMP.ChildIndex())
+		}
+		if len(h.Metadata) != 0 {
+			fmt.Fprintf(&b, " meta=%x", h.Metadata)
+		}
+		if len(h.EncryptedData) != 0 {
+			fmt.Fprintf(&b, " enc=%x", h.EncryptedData)
+		}
+		if h.BlindingPoint != nil {
+			fmt.Fprintf(&b, " bp=%x", h.BlindingPoint.SerializeCompressed())
+		}
+		if h.TotalAmtMsat != 0 {
+			fmt.Fprintf(&b, " total=%d", h.TotalAmtMsat)
+		}
+		if len(h.CustomRecords) != 0 {
+			fmt.Fprintf(&b, " rec=%s", recordsString(h.CustomRecords))
+		}
+		b.WriteByte(']')
+	}
+	return b.String()
+}
+
+func settleDigest(s *paymentsdb.HTLCSettleInfo) string {
+	return fmt.Sprintf("settle pre=%x t=%d", s.Preimage[:], s.SettleTime.UnixMicro())
+}
+
+func failDigest(f *paymentsdb.HTLCFailInfo) string {
+	msg := "none"
+	if f.Message != nil {
+		var mb bytes.Buffer
+		if err := lnwire.EncodeFailureMessage(&mb, f.Message, 0); err != nil {
+			msg = "unencodable:" + err.Error()
+		} else {
+			msg = fmt.Sprintf("%x", mb.Bytes())
+		}
+	}
+	return fmt.Sprintf("fail t=%d reason=%d src=%d msg=%s", f.FailTime.UnixMicro(), f.Reason, f.FailureSourceIndex, msg)
 }
 
 // ---------------------------------------------------------------------------
@@ -369,12 +562,15 @@ type aproj struct {
 	Total int64 // route total amount
 	Kind  string
 	Res   int
+	Dig   string // attemptDigest: everything persisted about the attempt
+	RDig  string // settleDigest / failDigest of the resolution ("" while in flight)
 }
 
 type pproj struct {
 	Exists  bool
 	Err     string // error class of FetchPayment when !Exists
 	Value   int64
+	Info    string // creationDigest
 	HTLCs   []aproj
 	Reason  int // -1 = none
 	Status  int
@@ -411,17 +607,21 @@ func projOf(p *paymentsdb.MPPayment, want lntypes.Hash) pproj {
 		out.Value = int64(p.Info.Value)
 		out.HashOK = p.Info.PaymentIdentifier == want
 	}
+	out.Info = creationDigest(p.Info)
 	for i := range p.HTLCs {
 		h := &p.HTLCs[i]
 		a := aproj{ID: h.AttemptID, Amt: int64(h.Route.ReceiverAmt()), Total: int64(h.Route.TotalAmount),
-			Kind: kindOfHop(h.Route.FinalHop())}
+			Kind: kindOfHop(h.Route.FinalHop()), Dig: attemptDigest(&h.HTLCAttemptInfo)}
 		switch {
 		case h.Settle != nil && h.Failure != nil:
 			a.Res = 3 // both: corrupt
+			a.RDig = settleDigest(h.Settle) + " + " + failDigest(h.Failure)
 		case h.Settle != nil:
 			a.Res = resSettled
+			a.RDig = settleDigest(h.Settle)
 		case h.Failure != nil:
 			a.Res = resFailed
+			a.RDig = failDigest(h.Failure)
 		}
 		out.HTLCs = append(out.HTLCs, a)
 	}
@@ -447,12 +647,14 @@ func (p pproj) String() string {
 		return "absent(" + p.Err + ")"
 	}
 	var b strings.Builder
-	fmt.Fprintf(&b, "v=%d st=%s r=%d [", p.Value, statusName(p.Status), p.Reason)
+	// the digests (creation info, attempt, resolution details) enter as short hashes;
+	// Detail() renders them in full for messages
+	fmt.Fprintf(&b, "v=%d i=%s st=%s r=%d [", p.Value, shortHash(p.Info), statusName(p.Status), p.Reason)
 	for i, a := range p.HTLCs {
 		if i > 0 {
 			b.WriteByte(' ')
 		}
-		fmt.Fprintf(&b, "%d:%d/%d:%s:%s", a.ID, a.Amt, a.Total, a.Kind, resName(a.Res))
+		fmt.Fprintf(&b, "%d:%d/%d:%s:%s#%s", a.ID, a.Amt, a.Total, a.Kind, resName(a.Res), shortHash(a.Dig+"|"+a.RDig))
 	}
 	// State.PaymentFailed is documented as "marked as failed with a reason" but is
 	// derived through TerminalInfo, which hides the reason once an attempt settled;
@@ -469,6 +671,53 @@ func (p pproj) String() string {
 		b.WriteString(" WRONGHASH")
 	}
 	return b.String()
+}
+
+// Detail renders the full digests behind the short hashes of String.
+func (p pproj) Detail() string {
+	if !p.Exists {
+		return ""
+	}
+	var b strings.Builder
+	fmt.Fprintf(&b, "creation{%s}", p.Info)
+	for _, a := range p.HTLCs {
+		fmt.Fprintf(&b, " attempt %d{%s}{%s}", a.ID, a.Dig, a.RDig)
+	}
+	return b.String()
+}
+
+// stripped is the projection without the digests.
+func (p pproj) stripped() pproj {
+	q := p
+	q.Info = ""
+	q.HTLCs = append([]aproj{}, p.HTLCs...)
+	for i := range q.HTLCs {
+		q.HTLCs[i].Dig, q.HTLCs[i].RDig = "", ""
+	}
+	return q
+}
+
+// digestDiff names what differs between two projections whose String differ only in
+// the digests (empty if something else differs, or nothing).
+func digestDiff(got, want pproj) string {
+	if !got.Exists || !want.Exists || got.stripped().String() != want.stripped().String() {
+		return ""
+	}
+	var out []string
+	if got.Info != want.Info {
+		out = append(out, fmt.Sprintf("creation info: reported {%s}, expected {%s}", got.Info, want.Info))
+	}
+	if len(got.HTLCs) == len(want.HTLCs) {
+		for i := range got.HTLCs {
+			if got.HTLCs[i].Dig != want.HTLCs[i].Dig {
+				out = append(out, fmt.Sprintf("attempt %d: reported {%s}, expected {%s}", got.HTLCs[i].ID, got.HTLCs[i].Dig, want.HTLCs[i].Dig))
+			}
+			if got.HTLCs[i].RDig != want.HTLCs[i].RDig {
+				out = append(out, fmt.Sprintf("resolution of attempt %d: reported {%s}, expected {%s}", got.HTLCs[i].ID, got.HTLCs[i].RDig, want.HTLCs[i].RDig))
+			}
+		}
+	}
+	return strings.Join(out, "; ")
 }
 
 func statusName(s int) string {
@@ -862,17 +1111,34 @@ func (p *sqlPool) closeAll() {
 	p.all, p.free = nil, map[int]*sqlHandle{}
 }
 
-func newKVBackend(wrap bool) (*backend, error) {
+// newKVBackend opens a fresh key-value database and a KVStore on it. kind "" is bbolt
+// (lnd's default), kind "sqlite" the sqlite-backed kvdb (kvdb/sqlbase: the key-value
+// model emulated on one SQL table; what a node with db.backend=sqlite and non-native
+// payments runs on). The latter only exists in binaries built with -tags kvdb_sqlite.
+func newKVBackend(wrap bool, kind string) (*backend, error) {
 	dir, err := newScratchDir("c16-kv")
 	if err != nil {
 		return nil, err
 	}
-	bolt, err := kvdb.GetBoltBackend(&kvdb.BoltBackendConfig{
-		DBPath: dir, DBFileName: "payments.db", NoFreelistSync: true,
-		AutoCompact: false, AutoCompactMinAge: kvdb.DefaultBoltAutoCompactMinAge,
-		DBTimeout: kvdb.DefaultDBTimeout,
-	})
+	var bolt kvdb.Backend
+	switch kind {
+	case "":
+		bolt, err = kvdb.GetBoltBackend(&kvdb.BoltBackendConfig{
+			DBPath: dir, DBFileName: "payments.db", NoFreelistSync: true,
+			AutoCompact: false, AutoCompactMinAge: kvdb.DefaultBoltAutoCompactMinAge,
+			DBTimeout: kvdb.DefaultDBTimeout,
+		})
+	case "sqlite":
+		if !kvdb.SqliteBackend {
+			err = fmt.Errorf("this binary was built without -tags kvdb_sqlite")
+		} else {
+			bolt, err = kvdb.StartSqliteTestBackend(dir, "paymentskv.sqlite", "paymentskv")
+		}
+	default:
+		err = fmt.Errorf("unknown kv backend kind %q", kind)
+	}
 	if err != nil {
+		removeAll(dir)
 		return nil, err
 	}
 	b := &backend{name: "kv", bolt: bolt, dir: dir}
@@ -994,26 +1260,16 @@ func (b *backend) exec(o op) (r result) {
 		if o.val == 0 {
 			panic("exec: unresolved " + o.raw)
 		}
-		err = b.db.InitPayment(bg, hashes[o.h], &paymentsdb.PaymentCreationInfo{
-			PaymentIdentifier:     hashes[o.h],
-			Value:                 lnwire.MilliSatoshi(o.val),
-			CreationTime:          baseTime,
-			PaymentRequest:        payVars[o.h].payReq,
-			FirstHopCustomRecords: payVars[o.h].custom,
-		})
+		err = b.db.InitPayment(bg, hashes[o.h], creationInfoFor(o.h, o.val))
 	case "reg":
 		if o.amt == 0 {
 			panic("exec: unresolved " + o.raw)
 		}
 		p, err = b.db.RegisterAttempt(bg, hashes[o.h], attemptFor(o.h, o.tok, o.amt, o.akind, o.total))
 	case "settle":
-		p, err = b.db.SettleAttempt(bg, hashes[o.h], o.id, &paymentsdb.HTLCSettleInfo{
-			Preimage: preimages[o.h], SettleTime: baseTime.Add(time.Minute),
-		})
+		p, err = b.db.SettleAttempt(bg, hashes[o.h], o.id, settleInfoFor(o.h, o.tok))
 	case "failatt":
-		p, err = b.db.FailAttempt(bg, hashes[o.h], o.id, &paymentsdb.HTLCFailInfo{
-			FailTime: baseTime.Add(time.Minute), Reason: paymentsdb.HTLCFailUnreadable,
-		})
+		p, err = b.db.FailAttempt(bg, hashes[o.h], o.id, failInfoFor(o.h, o.tok))
 	case "fail":
 		p, err = b.db.Fail(bg, hashes[o.h], paymentsdb.FailureReason(o.reason))
 	case "del":
